@@ -71,7 +71,11 @@ type op struct {
 	// with its own caches on the same backend.  Its writes are KForeign steps of the trace.
 	Node int `json:"node,omitempty"`
 	// filled by the run
-	Obs *stepObs `json:"observed,omitempty"`
+	// Fault (plog): the storage write of this PutPlog is made to fail before it has any effect
+	Fault bool `json:"fault,omitempty"`
+	Obs   *stepObs `json:"observed,omitempty"`
+	// the probe after an unsuccessful PutPlog: the same event object handed to GetEventReapplier
+	Probes []*stepObs `json:"reapply_of_unstored_event,omitempty"`
 }
 
 type scenario struct {
@@ -95,6 +99,7 @@ type slotObs struct {
 
 type stepObs struct {
 	Kind   string    `json:"kind"`
+	Mode   uint64    `json:"mode,omitempty"`
 	Result string    `json:"result"`
 	Error  string    `json:"error,omitempty"`
 	Calls  []string  `json:"calls"`
@@ -129,6 +134,7 @@ type item struct {
 	api    func() (bool, int64, error)
 	val    []byte // bytes the op handed to the storage for this row (nil = never reached)
 	before  obs
+	after   obs
 	touched bool
 	ev      *liveEvent // for record rows
 	id      uint64
@@ -152,6 +158,8 @@ type runner struct {
 	refused map[string]bool
 	// slots another writer (node 2) has written underneath the first node's caches
 	staleKeys map[string]bool
+	// s_mode of the next step (0 ordinary; 1/2 re-apply of an event whose PutPlog was refused / failed; 3 injected fault)
+	mode uint64
 }
 
 func (r *runner) intern(b []byte, stamp int64) uint64 {
@@ -353,6 +361,7 @@ func (r *runner) step(o *op, kind string, corrupted bool, items []*item, call fu
 		slots[i] = fmt.Sprintf("mkSlot (mkItem %s %s %d %s %s %s %s) %s %s %s", kit.Bytes(it.pk), kit.Bytes(it.cc), kcode,
 			kit.Bool(it.isNew), kit.Bool(it.stale), kit.Bool(it.load), v, kit.Bool(foreign), r.obsTerm(it.before), r.obsTerm(after))
 		it.foreign = foreign
+		it.after = after
 		so.Slots = append(so.Slots, slotObs{Key: fmt.Sprintf("%x/%x", it.pk, it.cc), Kind: kname, Stale: it.stale, Foreign: foreign, New: it.isNew, Load: it.load, Val: vd,
 			Before: r.obsDesc(it.before), After: r.obsDesc(after)})
 		r.tagSlot(kind, corrupted, it, it.before, after, res)
@@ -367,7 +376,11 @@ func (r *runner) step(o *op, kind string, corrupted bool, items []*item, call fu
 		}
 	}
 	o.Obs = so
-	r.steps = append(r.steps, fmt.Sprintf("mkStep %s %s %s %s %s", kind, kit.Bool(corrupted), kit.List(slots), res, kit.List(callTerms)))
+	r.steps = append(r.steps, fmt.Sprintf("mkStep %s %d %s %s %s %s", kind, r.mode, kit.Bool(corrupted), kit.List(slots), res, kit.List(callTerms)))
+	so.Mode = r.mode
+	if r.mode != 0 {
+		fmt.Fprintf(&r.shape, "/m%d", r.mode)
+	}
 	fmt.Fprintf(&r.shape, "|%s:%d:%s", kind, len(items), res)
 	return nil
 }
@@ -438,7 +451,7 @@ func (r *runner) foreignStep(o *op, items []*item, call func() error) error {
 			Val: fmt.Sprintf("#%d stamp=%d", r.intern(it.val, it.stamp), it.stamp), Before: r.obsDesc(it.before), After: r.obsDesc(after)})
 	}
 	r.tags["foreign-writer"] = true
-	r.steps = append(r.steps, fmt.Sprintf("mkStep KForeign false %s ROk []", kit.List(slots)))
+	r.steps = append(r.steps, fmt.Sprintf("mkStep KForeign 0 false %s ROk []", kit.List(slots)))
 	fmt.Fprintf(&r.shape, "|KForeign:%d", len(written))
 	return nil
 }
@@ -476,6 +489,12 @@ func (r *runner) tagSlot(kind string, corrupted bool, it *item, before, after ob
 	}
 	if it.foreign && !corrupted {
 		pre = "foreign"
+	}
+	switch r.mode {
+	case 1, 2:
+		pre = fmt.Sprintf("unstored-m%d", r.mode)
+	case 3:
+		pre = "fault"
 	}
 	if kind == "KApply" && !it.isNew && it.stale {
 		op = "update-from-created-object"
@@ -681,6 +700,66 @@ func (r *runner) get(name string) (*liveEvent, error) {
 	return ev, nil
 }
 
+// probeUnstored: after a PutPlog that was refused (mode 1) or failed (mode 2) the caller still holds the event
+// object; it is handed to GetEventReapplier.  A panic is the expected answer (step outcome RPanic, nothing
+// written); if the event is accepted, PutWLog and ApplyRecords are run and recorded like any other step.
+func (r *runner) probeUnstored(o *op, ev *liveEvent, mode uint64) error {
+	obj, ok := ev.raw.(istructs.IPLogEvent)
+	if !ok {
+		return nil
+	}
+	var ra istructs.IEventReapplier
+	var refusal any
+	func() {
+		defer func() { refusal = recover() }()
+		ra = r.rig.app.GetEventReapplier(obj)
+	}()
+	probe := &liveEvent{spec: ev.spec, pev: obj, staleUpd: ev.staleUpd, updLoaded: map[uint64]bool{}}
+	run := func(kind string, items []*item, f func() error) error {
+		po := &op{}
+		r.mode = mode
+		err := r.step(po, kind, ev.spec.Corrupted, items, func() error {
+			if ra == nil {
+				panic(refusal)
+			}
+			return f()
+		})
+		r.mode = 0
+		if err != nil {
+			return err
+		}
+		o.Probes = append(o.Probes, po.Obs)
+		for _, it := range items {
+			guarded := (kind == "KReapplyWlog" && r.sc.Trust < 2) || (kind == "KReapplyRecs" && r.sc.Trust == 0 && it.isNew)
+			if guarded && it.before.botOk && !bytes.Equal(it.before.bot, it.after.bot) {
+				if mode == 2 {
+					// finding P-D, judged from the observed outcome
+					r.tags["P-D:event-whose-PutPlog-failed-is-reapplied-over-an-existing-entry"] = true
+				} else {
+					r.tags["unstored:refused-event-reapplied-over-an-existing-entry"] = true
+				}
+			}
+		}
+		return nil
+	}
+	if ra == nil {
+		r.tags[fmt.Sprintf("unstored:m%d:reapplier-refuses", mode)] = true
+	} else {
+		r.tags[fmt.Sprintf("unstored:m%d:reapplier-accepts", mode)] = true
+	}
+	if err := run("KReapplyWlog", []*item{r.wlogItem(ev.spec)}, func() error { return ra.PutWLog() }); err != nil {
+		return err
+	}
+	if ev.spec.Corrupted || ev.spec.Invalid {
+		return nil
+	}
+	items, err := r.eventItems(probe)
+	if err != nil {
+		return err
+	}
+	return run("KReapplyRecs", items, func() error { return ra.ApplyRecords() })
+}
+
 // reapplier: GetEventReapplier refuses (panics on) events whose isStored flag is unset; that is the
 // case for sys.Corrupted / invalid events loaded from the storage (loadEvent returns before setting it).
 // Nothing is written then, so the op is skipped and the fact is tagged.
@@ -734,13 +813,29 @@ func (r *runner) runOp(o *op) error {
 				return err
 			})
 		}
-		return r.step(o, "KPlog", ev.spec.Corrupted, []*item{r.plogItem(ev.spec)}, func() error {
+		if o.Fault {
+			r.rig.failPLogWrite, r.mode = true, 3
+		}
+		err = r.step(o, "KPlog", ev.spec.Corrupted, []*item{r.plogItem(ev.spec)}, func() error {
 			pev, err := r.rig.app.Events().PutPlog(ev.raw, ev.berr, &scriptedIDs{ids: ids})
 			if err == nil {
 				ev.pev, ev.putGen, ev.reread, ev.loaded = pev, r.rig.gen, false, false
 			}
 			return err
 		})
+		r.rig.failPLogWrite, r.mode = false, 0
+		if err != nil || o.Obs == nil || ev.pev != nil {
+			// (an object that an earlier PutPlog did store is a logged event: re-applying it is legitimate)
+			return err
+		}
+		// an event whose PutPlog did not succeed is not in the log: the re-applier must not take it
+		switch {
+		case o.Obs.Result == "RViolation":
+			return r.probeUnstored(o, ev, 1)
+		case o.Fault && o.Obs.Result == "ROther":
+			return r.probeUnstored(o, ev, 2)
+		}
+		return nil
 	case "buildplog":
 		// IEvents.BuildPLogEvent: a PLog event that is not put into the PLog (sys.Corrupted with null PLog offset
 		// only; the path of `update corrupted` for the WLog)
